@@ -176,7 +176,12 @@ def c03_catalogue(quick):
     small = [U(1, links=[2, 3]), U(2, links=[4]), U(3, links=[2]), U(4)]
     chain = [U(1, links=[2]), U(2, links=[3]), U(3)]
     out = [scenario('crash-small-N1', small, N=1), scenario('crash-chain-N1', chain, N=1),
-           scenario('crash-small-N2', small, N=2), scenario('crash-small-dburi', small, N=1, dburi=1)]
+           scenario('crash-small-N2', small, N=2), scenario('crash-small-dburi', small, N=1, dburi=1),
+           # an interrupted attempt must not use up the only try
+           scenario('crash-small-tries1', small, dict(tries=1), N=2),
+           # a URL that failed transiently before the kill is retried by the resumed run
+           scenario('crash-flaky', [U(1, links=[2, 3]), U(2, kind='script', seq=['error500', 'page'], links=[]), U(3)],
+                    dict(tries=3), N=1)]
     if not quick:
         diamond = [U(1, links=[2, 3]), U(2, links=[4]), U(3, links=[5]), U(4, links=[6]), U(5, links=[4]), U(6)]
         pr = [U(1, links=[2, dict(to=3, inline=1)]), U(2, links=[dict(to=4, inline=1), 5]), U(3), U(4), U(5)]
